@@ -212,14 +212,15 @@ pub fn observe(vm: &mut Vm<'static, Host>, prog: &CaoCompiledProgram, pr: &Print
             .collect()
     };
     let log = out::list(vm.get_aux().log.iter().cloned());
-    // value-stack height, call-stack depth, number of objects, length of the globals vector (verif-hooks)
+    // value-stack height, call-stack depth, number of objects, length of the globals vector (verif-hooks),
+    // and the public field Vm::remaining_iters
     let shape = if kind == Kind::Panic {
         "None".to_string()
     } else {
         let (h, d) = cao_lang::verif_hooks::stack_heights(&vm.runtime_data);
         let objs = cao_lang::verif_hooks::object_count(&vm.runtime_data);
         let gl = cao_lang::verif_hooks::global_count(&vm.runtime_data);
-        format!("(Some [{}; {}; {}; {}])", out::n(h as u64), out::n(d as u64), out::n(objs as u64), out::n(gl as u64))
+        format!("(Some [{}; {}; {}; {}; {}])", out::n(h as u64), out::n(d as u64), out::n(objs as u64), out::n(gl as u64), out::n(vm.remaining_iters))
     };
     Obs { kind, term: format!("(mkObs {} {} {} {})", oterm, out::list(globals), log, shape), timeout }
 }
@@ -272,7 +273,7 @@ fn opcode_table_case() -> String {
 
 const GENEROUS: u64 = 20_000;
 
-fn emit_program(w: &mut CaseWriter, name: &str, m: Module, extra_budgets: &[u64], history: usize, rng: &mut Rng) {
+fn emit_program(w: &mut CaseWriter, name: &str, m: Module, extra_budgets: &[u64], history: usize, clear: bool, rng: &mut Rng) {
     out::describe_current(&format!("VM program {}", name));
     if std::env::var("VM_TRACE").is_ok() { eprintln!("program {}", name); }
     if let Ok(dir) = std::env::var("VM_DUMP") {
@@ -303,7 +304,10 @@ fn emit_program(w: &mut CaseWriter, name: &str, m: Module, extra_budgets: &[u64]
     let mut kinds: Vec<Kind> = vec![];
     if history > 0 {
         let mut vm = new_vm(GENEROUS);
-        for _ in 0..history {
+        for k in 0..history {
+            if clear && k > 0 {
+                vm.clear();
+            }
             let o = observe(&mut vm, &prog, &pr);
             runs.push(format!("({}, {})", out::n(GENEROUS), o.term));
             let stop = o.kind == Kind::Panic;
@@ -313,7 +317,7 @@ fn emit_program(w: &mut CaseWriter, name: &str, m: Module, extra_budgets: &[u64]
             }
         }
         std::mem::forget(vm);
-        w.count("mode.history");
+        w.count(if clear { "mode.history_clear" } else { "mode.history" });
     } else {
         let mut budgets: Vec<u64> = vec![GENEROUS];
         match find_need(&prog, &pr, GENEROUS) {
@@ -349,7 +353,8 @@ fn emit_program(w: &mut CaseWriter, name: &str, m: Module, extra_budgets: &[u64]
             }
         }
     }
-    let term = format!("(VmProg {} {} {} {})", out::b(debug), out::b(history == 0), pr.term, out::list(runs));
+    let mode = if history == 0 { "MFresh" } else if clear { "MReuseClear" } else { "MReuse" };
+    let term = format!("(VmProg {} {} {} {})", out::b(debug), mode, pr.term, out::list(runs));
     let nontrivial = kinds.iter().any(|k| *k == Kind::Ok) || kinds.len() > 3;
     w.push(term, nontrivial);
 }
@@ -360,7 +365,7 @@ pub fn gen(a: &Args) {
     w.push(opcode_table_case(), false);
     for e in vmgen::corpus() {
         w.count(&format!("corpus.{}", e.name));
-        emit_program(&mut w, e.name, e.module, &e.budgets, e.history, &mut rng);
+        emit_program(&mut w, e.name, e.module, &e.budgets, e.history, e.clear, &mut rng);
     }
     let mut features: std::collections::BTreeMap<&'static str, u64> = Default::default();
     let mut i = 0usize;
@@ -375,8 +380,9 @@ pub fn gen(a: &Args) {
             (m, g.features.clone())
         };
         for f in feats { *features.entry(f).or_insert(0) += 1; }
-        let history = if rng.chance(1, 12) { 3 } else { 0 };
-        emit_program(&mut w, &format!("random #{} (seed {})", i, a.seed), m, &[], history, &mut rng);
+        let history = if rng.chance(1, 8) { 3 } else { 0 };
+        let clear = history > 0 && rng.chance(1, 2);
+        emit_program(&mut w, &format!("random #{} (seed {})", i, a.seed), m, &[], history, clear, &mut rng);
     }
     for (f, c) in features { w.count_n(&format!("feature.{}", f), c); }
     w.finish(serde_json::json!({"profile": if cfg!(debug_assertions) { "debug" } else { "release" }}));
